@@ -194,6 +194,8 @@ func gffErrKind(msg string) string {
 		return "fasta-invalid"
 	case strings.HasPrefix(msg, "empty fasta file"):
 		return "fasta-empty"
+	case strings.Contains(msg, "token too long"):
+		return "toolong"
 	}
 	return "other(" + firstLine(msg) + ")"
 }
@@ -770,8 +772,8 @@ func gffCorruptCase(r *RNG, id string) *Case {
 			}
 			return prefix + strings.Repeat(ch, k) + suffix
 		}
-		if kind == "long-line-edge" { // the raw line (with its CR, if any) has 65535 or 65536 bytes
-			n = r.PickInt([]int{65534, 65535, 65536})
+		if kind == "long-line-edge" { // the raw line (with its CR, if any) has a length at the old or the new token limit
+			n = r.PickInt([]int{65535, 65536, 1<<20 - 2, 1<<20 - 1, 1 << 20}) // around the old limit (now harmless) and the new one
 			if d.crlf {
 				n -= r.Intn(2)
 			}
